@@ -191,15 +191,217 @@ Proof. rewrite async_refines_spec. apply spec_reports_ok. Qed.
 Definition sync_expected (s : st) (m : msg) : sret :=
   match exps s with
   | [] => SErr err_out_of_expectations
-  | e :: _ => match scripted e m with OSucc p => SOk 0 (last s + 1) p | OErr x => SErr x end
+  | e :: _ => match scripted e m with OSucc _ => SOk 0 (last s + 1) | OErr x => SErr x end
+  end.
+
+(* msg.Partition is the partitioner's choice whenever the partitioner succeeded (even if the call then fails);
+   msg.Offset is written only on success *)
+Definition sync_touch_expected (s : st) (m : msg) : touch :=
+  match exps s with
+  | [] => untouched
+  | e :: _ => (match m_pres m with POk p => Some p | PErr _ => None end,
+               match scripted e m with OSucc _ => Some (last s + 1) | OErr _ => None end)
   end.
 
 Theorem sync_returns_scripted s m :
-  snd (fst (step_sync s m)) = sync_expected s m /\
-  snd (step_sync s m) = deviation (hd_error (exps s)) m.
+  r_ret (snd (step_sync s m)) = sync_expected s m /\
+  r_rep (snd (step_sync s m)) = deviation (hd_error (exps s)) m /\
+  r_touch (snd (step_sync s m)) = [sync_touch_expected s m] /\
+  exps (fst (step_sync s m)) = tl (exps s).
 Proof.
-  unfold step_sync, sync_expected, scripted, deviation. destruct (exps s) as [|e es]; cbn; auto.
+  unfold step_sync, sync_expected, sync_touch_expected, scripted, deviation, apply1, touch_of.
+  destruct s as [[|e es] lo]; cbn; auto.
   destruct (m_pres m); cbn; auto. destruct (e_chk e); destruct (e_res e); cbn; auto.
+Qed.
+
+(* --- SendMessages --- *)
+(* the first pair (expectation, message) whose scripted outcome is an error *)
+Fixpoint first_failure (es : list expectation) (ms : list msg) : option (expectation * msg * Z) :=
+  match es, ms with
+  | e :: er, m :: mr => match scripted e m with OErr x => Some (e, m, x) | OSucc _ => first_failure er mr end
+  | _, _ => None
+  end.
+(* number of leading pairs that succeed *)
+Fixpoint succ_prefix (es : list expectation) (ms : list msg) : nat :=
+  match es, ms with
+  | e :: er, m :: mr => match scripted e m with OErr _ => O | OSucc _ => S (succ_prefix er mr) end
+  | _, _ => O
+  end.
+
+Fixpoint zseq (o : Z) (n : nat) : list Z := match n with O => [] | S k => o :: zseq (o + 1) k end.
+
+Definition batch_ret (ff : option (expectation * msg * Z)) : sret :=
+  match ff with Some (_, _, x) => SErr x | None => SOk 0 0 end.
+Definition batch_reports (ff : option (expectation * msg * Z)) : list report :=
+  match ff with Some (e, m, _) => deviation (Some e) m | None => [] end.
+
+Lemma apply1_scripted e lo m :
+  (a_err (apply1 e lo m) = match scripted e m with OErr x => Some x | OSucc _ => None end) /\
+  a_rep (apply1 e lo m) = deviation (Some e) m /\
+  a_off (apply1 e lo m) = (match scripted e m with OErr _ => None | OSucc _ => Some (lo + 1) end) /\
+  a_last (apply1 e lo m) = (match scripted e m with OErr _ => lo | OSucc _ => lo + 1 end) /\
+  a_part (apply1 e lo m) = (match m_pres m with POk p => Some p | PErr _ => None end).
+Proof.
+  unfold apply1, scripted, deviation. destruct (m_pres m); cbn; auto.
+  destruct (e_chk e); destruct (e_res e); cbn; auto.
+Qed.
+
+Lemma map_snd_untouched (ms : list msg) :
+  map snd (map (fun _ : msg => untouched) ms) = repeat (@None Z) (length ms).
+Proof. induction ms; cbn; congruence. Qed.
+
+Lemma batch_loop_spec : forall es ms lo, length ms = length es ->
+  let r := batch_loop lo es ms in
+  b_err r = match first_failure es ms with Some (_, _, x) => Some x | None => None end /\
+  b_rep r = batch_reports (first_failure es ms) /\
+  b_last r = lo + Z.of_nat (succ_prefix es ms) /\
+  map snd (b_touch r) = map Some (zseq (lo + 1) (succ_prefix es ms)) ++ repeat None (length ms - succ_prefix es ms).
+Proof.
+  induction es as [|e er IH]; intros [|m mr] lo Hl; try discriminate Hl.
+  - cbn. repeat split; auto. lia.
+  - cbn [batch_loop first_failure succ_prefix].
+    destruct (apply1_scripted e lo m) as (He & Hr & Ho & Hla & _).
+    destruct (scripted e m) as [p|x] eqn:Es; rewrite He.
+    + assert (Hl' : length mr = length er) by (cbn in Hl; lia).
+      rewrite Hla. specialize (IH mr (lo + 1) Hl'). cbn zeta in IH. destruct IH as (I1 & I2 & I3 & I4).
+      cbn [b_err b_rep b_last b_touch]. rewrite I1, I2, I3.
+      repeat split; auto; [lia|].
+      cbn [map snd touch_of zseq length Nat.sub]. rewrite Ho, I4. reflexivity.
+    + cbn [b_err b_rep b_last b_touch batch_reports]. rewrite Hr, Hla. repeat split; auto; [lia|].
+      cbn [map snd touch_of zseq length Nat.sub app]. rewrite Ho, map_snd_untouched. reflexivity.
+Qed.
+
+Lemma first_failure_firstn : forall ms es, first_failure (firstn (length ms) es) ms = first_failure es ms.
+Proof. induction ms as [|m mr IH]; intros [|e er]; cbn; auto. destruct (scripted e m); auto. Qed.
+Lemma succ_prefix_firstn : forall ms es, succ_prefix (firstn (length ms) es) ms = succ_prefix es ms.
+Proof. induction ms as [|m mr IH]; intros [|e er]; cbn; auto. destruct (scripted e m); auto. Qed.
+
+(* enough expectations: exactly len(msgs) are consumed, the result is that of the first failing
+   expectation (nil if none), offsets go to the messages before it and to no other *)
+Theorem sync_batch_enough s ms : (length ms <= length (exps s))%nat ->
+  let ff := first_failure (exps s) ms in
+  let k := succ_prefix (exps s) ms in
+  r_ret (snd (step_batch s ms)) = batch_ret ff /\
+  r_rep (snd (step_batch s ms)) = batch_reports ff /\
+  exps (fst (step_batch s ms)) = skipn (length ms) (exps s) /\
+  length (exps (fst (step_batch s ms))) = (length (exps s) - length ms)%nat /\
+  last (fst (step_batch s ms)) = last s + Z.of_nat k /\
+  map snd (r_touch (snd (step_batch s ms))) = map Some (zseq (last s + 1) k) ++ repeat None (length ms - k).
+Proof.
+  intros Hl. unfold step_batch. apply Nat.leb_le in Hl as Hb. rewrite Hb. cbn [fst snd exps last r_ret r_rep r_touch].
+  assert (Hn : length ms = length (firstn (length ms) (exps s))) by (rewrite firstn_length; lia).
+  pose proof (batch_loop_spec (firstn (length ms) (exps s)) ms (last s) Hn) as H. cbn zeta in H.
+  rewrite first_failure_firstn, succ_prefix_firstn in H. destruct H as (H1 & H2 & H3 & H4).
+  repeat split; auto.
+  - rewrite H1. unfold batch_ret. destruct (first_failure (exps s) ms) as [[[? ?] ?]|]; reflexivity.
+  - apply skipn_length.
+Qed.
+
+(* not enough expectations: nothing is consumed, nothing is written, one report *)
+Theorem sync_batch_insufficient s ms : (length (exps s) < length ms)%nat ->
+  step_batch s ms = (s, {| r_ret := SErr err_out_of_expectations; r_rep := [RepInsufficient];
+                            r_touch := map (fun _ => untouched) ms; r_asked := [] |}).
+Proof. intros Hl. unfold step_batch. apply Nat.leb_gt in Hl. rewrite Hl. reflexivity. Qed.
+
+(* --- offsets over any mix of SendMessage and SendMessages calls --- *)
+Definition touch_offsets (ts : list touch) : list Z :=
+  flat_map (fun t : touch => match snd t with Some o => [o] | None => [] end) ts.
+Definition call_offsets (rs : list callres) : list Z := flat_map (fun r => touch_offsets (r_touch r)) rs.
+
+Lemma consecutive_from_app : forall a b o,
+  consecutive_from o a -> consecutive_from (o + Z.of_nat (length a)) b -> consecutive_from o (a ++ b).
+Proof.
+  induction a as [|x a IH]; intros b o Ha Hb; cbn in *.
+  - replace (o + 0) with o in Hb by lia. exact Hb.
+  - destruct Ha as [-> Ha]. split; auto. apply IH; auto.
+    replace (o + 1 + Z.of_nat (length a)) with (o + Z.pos (Pos.of_succ_nat (length a))) by lia. exact Hb.
+Qed.
+
+Lemma touch_offsets_untouched (ms : list msg) : touch_offsets (map (fun _ => untouched) ms) = [].
+Proof. induction ms; cbn; auto. Qed.
+
+Lemma batch_loop_offsets : forall es ms lo,
+  let r := batch_loop lo es ms in
+  consecutive_from lo (touch_offsets (b_touch r)) /\
+  b_last r = lo + Z.of_nat (length (touch_offsets (b_touch r))).
+Proof.
+  induction es as [|e er IH]; intros ms lo; cbn zeta.
+  - destruct ms; cbn [batch_loop b_touch b_last]; rewrite touch_offsets_untouched; cbn; split; auto; lia.
+  - destruct ms as [|m mr]; [cbn; split; auto; lia|]. cbn [batch_loop].
+    destruct (apply1_scripted e lo m) as (He & _ & Ho & Hla & _).
+    destruct (scripted e m) as [p|x]; rewrite He.
+    + specialize (IH mr (a_last (apply1 e lo m))). cbn zeta in IH. destruct IH as [I1 I2].
+      cbn [b_touch b_last]. unfold touch_offsets in *. cbn [flat_map touch_of snd]. rewrite Ho. cbn [app length].
+      rewrite Hla in *. split; [split; auto | lia].
+    + cbn [b_touch b_last]. unfold touch_offsets. cbn [flat_map touch_of snd]. rewrite Ho.
+      fold (touch_offsets (map (fun _ : msg => untouched) mr)). rewrite touch_offsets_untouched. cbn. split; auto; lia.
+Qed.
+
+Lemma step_call_offsets s c :
+  consecutive_from (last s) (touch_offsets (r_touch (snd (step_call s c)))) /\
+  last (fst (step_call s c)) = last s + Z.of_nat (length (touch_offsets (r_touch (snd (step_call s c))))).
+Proof.
+  destruct c as [m|ms]; cbn [step_call].
+  - unfold step_sync. destruct (exps s) as [|e es]; cbn; [split; auto; lia|].
+    destruct (apply1_scripted e (last s) m) as (_ & _ & Ho & Hla & _).
+    unfold touch_offsets, touch_of. cbn [flat_map snd]. rewrite Ho, Hla.
+    destruct (scripted e m); cbn; split; auto; lia.
+  - unfold step_batch. destruct (length ms <=? length (exps s))%nat; cbn [fst snd r_touch last].
+    + apply batch_loop_offsets.
+    + rewrite touch_offsets_untouched. cbn. split; auto; lia.
+Qed.
+
+(* every offset handed out is the previous one plus one, whatever the mix of call kinds *)
+Theorem sync_offsets_increase : forall cs s,
+  consecutive_from (last s) (call_offsets (snd (run_calls s cs))) /\
+  last (fst (run_calls s cs)) = last s + Z.of_nat (length (call_offsets (snd (run_calls s cs)))).
+Proof.
+  induction cs as [|c cr IH]; intros s; cbn [run_calls].
+  - cbn. split; auto; lia.
+  - destruct (step_call_offsets s c) as [H1 H2].
+    destruct (step_call s c) as [s1 o] eqn:E1. specialize (IH s1).
+    destruct (run_calls s1 cr) as [s2 os] eqn:E2. cbn [fst snd] in *.
+    destruct IH as [I1 I2]. unfold call_offsets in *. cbn [flat_map]. rewrite app_length. split.
+    + apply consecutive_from_app; auto. rewrite <- H2. exact I1.
+    + lia.
+Qed.
+
+(* SyncProducer.Close reports left-over expectations and nothing else *)
+Theorem sync_close_exact s :
+  sync_close s = match exps s with [] => [] | _ => [RepLeftOver (Z.of_nat (length (exps s)))] end.
+Proof. reflexivity. Qed.
+
+(* ---------- concurrent senders on the async input ---------- *)
+From Coq Require Import Permutation.
+Inductive interleave {A : Type} : list A -> list A -> list A -> Prop :=
+| il_nil : interleave [] [] []
+| il_l x a b c : interleave a b c -> interleave (x :: a) b (x :: c)
+| il_r x a b c : interleave a b c -> interleave a (x :: b) (x :: c).
+
+Lemma interleave_perm {A} (a b c : list A) : interleave a b c -> Permutation (a ++ b) c.
+Proof.
+  induction 1; cbn; auto.
+  eapply perm_trans; [symmetry; apply Permutation_middle|]. constructor. assumption.
+Qed.
+
+(* whatever order the messages of two senders arrive in (the mock consumes its input channel in
+   arrival order), the arrival sequence is served as the zip with the expectations and every
+   message of either sender gets exactly one terminal event *)
+Theorem concurrent_senders c es ms1 ms2 arr id :
+  interleave ms1 ms2 arr ->
+  async_history c es arr = spec_async c es arr 0 /\
+  (all_visible c -> (length (ms1 ++ ms2) <= length es)%nat -> NoDup (map m_id (ms1 ++ ms2)) ->
+   outcomes_of id (async_history c es arr) = if in_dec Z.eq_dec id (map m_id (ms1 ++ ms2)) then 1%nat else 0%nat).
+Proof.
+  intros Hi. split; [apply async_refines_spec|]. intros Hv Hl Hnd.
+  pose proof (interleave_perm _ _ _ Hi) as Hp.
+  pose proof (Permutation_map m_id Hp) as Hpm.
+  rewrite exactly_one_outcome; auto.
+  - destruct (in_dec Z.eq_dec id (map m_id arr)) as [H|H]; destruct (in_dec Z.eq_dec id (map m_id (ms1 ++ ms2))) as [H'|H']; auto.
+    + exfalso. apply H'. eapply Permutation_in; [symmetry; exact Hpm | exact H].
+    + exfalso. apply H. eapply Permutation_in; [exact Hpm | exact H'].
+  - rewrite <- (Permutation_length Hp). exact Hl.
+  - eapply Permutation_NoDup; [exact Hpm | exact Hnd].
 Qed.
 
 (* non-vacuity: a script exercising every branch *)
@@ -212,3 +414,19 @@ Example c20_example :
   async_history c es ms =
     [EvSucc 1 3 1; EvReport RepChecker; EvErr 2 7; EvErr 3 9; EvReport RepPartitioner; EvErr 4 5; EvReport RepNoExpectation].
 Proof. vm_compute. reflexivity. Qed.
+
+Example c20_sync_example :
+  let es := [ {| e_res := RSucc; e_chk := CNone |}; {| e_res := RSucc; e_chk := CPass |};
+              {| e_res := RFail 9; e_chk := CNone |}; {| e_res := RSucc; e_chk := CNone |};
+              {| e_res := RSucc; e_chk := CNone |} ] in
+  let m i := {| m_id := i; m_pres := POk (i + 10) |} in
+  let '(s, rs) := run_calls (init es) [CSend (m 1); CBatch [m 2; m 3; m 4]; CSend (m 5); CBatch [m 6; m 7]] in
+  map r_ret rs = [SOk 0 1; SErr 9; SOk 0 3; SErr err_out_of_expectations] /\
+  call_offsets rs = [1; 2; 3] /\ sync_close s = [] /\
+  map r_rep rs = [[]; []; []; [RepInsufficient]].
+Proof. vm_compute. repeat split. Qed.
+
+Example c20_interleave_example :
+  let m i := {| m_id := i; m_pres := POk 0 |} in
+  interleave [m 1; m 2] [m 3] [m 1; m 3; m 2].
+Proof. repeat constructor. Qed.
